@@ -298,6 +298,11 @@ func (c *Ctx) randSpec(typeKey string, maxP, depth int, vary bool) Spec {
 			pick = with[c.Rng.IntN(len(with))]
 		}
 	}
+	if depth > 0 && pick == "strategy.NewMajorityStrategy" {
+		// a vote over no strategies emits Hold for ever and never closes (DESIGN 7.4, observations): not a sub-strategy any
+		// wrapper can be exercised over, and not representable as a finite stream in the model
+		pick = "strategy.NewMajorityStrategyWith"
+	}
 	gc := genCtors[pick]
 	sp := Spec{Ctor: pick}
 	var ints []*int64
